@@ -46,11 +46,16 @@ def scenario(rng, idx):
     return {"search": s, "replace": r, "tree": tree, "src": src, "dst": dst, "occupant": occ, "kind": kind}
 
 
-def chain_scenario(rng):
+def chain_scenario(rng, length=None):
+    """replacement contains the search term (foo -> foo_bar): every planned destination but the last is another
+    planned source; chains of 2..4 links"""
     w = rng.sample(gen.VOCAB, 2)
-    s, r = w[0], w[0] + "_" + w[1]           # replacement contains the search term
-    tree = {s + ".txt": ("f", b"one\n", 0o644), r + ".txt": ("f", b"two\n", 0o644)}
-    return {"search": s, "replace": r, "tree": tree, "src": s + ".txt", "dst": r + ".txt", "occupant": "chain", "kind": "file"}
+    s, r = w[0], w[0] + "_" + w[1]
+    n = length or rng.choice([2, 3, 3, 4])
+    names = [s + ("_" + w[1]) * i + ".txt" for i in range(n)]
+    tree = {nm: ("f", f"content of file {i}\n".encode(), 0o644) for i, nm in enumerate(names)}
+    return {"search": s, "replace": r, "tree": tree, "src": names[0], "dst": names[1], "occupant": "chain", "kind": "file",
+            "chain": names + [s + ("_" + w[1]) * n + ".txt"]}
 
 
 def file_multiset(snap):
@@ -151,7 +156,8 @@ def run(ctx):
         kind = "d" if sc["kind"] == "dir" else "f"
         rens = [(kind, sc["src"], sc["dst"])]
         if sc["occupant"] == "chain":
-            rens.append(("f", sc["dst"], sc["replace"] + "_" + sc["replace"].split("_")[-1] + ".txt"))
+            ch = sc["chain"]
+            rens = [("f", ch[i], ch[i + 1]) for i in range(len(ch) - 1)]
         reqs.append(" ".join(["applytree"] + gen.wire_tree(sc["tree"]) + gen.wire_hunks([]) + gen.wire_rens(rens)))
     common.correspond(ctx, "applytree on occupied destinations", reqs)
 
